@@ -154,6 +154,7 @@ func emitCert(op string, der []byte, old []string) {
 }
 
 func genC03(tier string, r *rng) {
+	genCertX(tier, r)
 	keys := signerKeys()
 	n := 250
 	if tier == "thorough" {
